@@ -17,7 +17,10 @@ RULE = ("run: the full product 6 entry points x 16 type shapes ({ZST,sized}x{Dro
         "sequence of Bencher::counter (constants, also before with_inputs), input_counter and (u64 inputs) count_inputs_as "
         "calls over 1-4 kinds, explicit and tuned sizes, bench and test mode: the input counters in force are resolved by the "
         "model (last call of a kind decides), every input must be logged by exactly those, and the recorded per-sample counts "
-        "(1 per iteration for every input-based kind, the constant otherwise) are compared too. Instrumented values carry thread<<32|ordinal; generator, counter "
+        "(1 per iteration for every input-based kind, the constant otherwise) are compared too; e2e-macro-wrappers: the "
+        "real-macro binary hx-sample-e2e, a #[divan::bench] function per wrapper arm of the attribute macro (Rust ABI, extern "
+        "\"C\"/\"system\", generic, args, Bencher, Bencher+args) returning a value with a destructor, one process per case, "
+        "threads 1-2: the per-thread logs must equal the model's for Bencher::bench with a sized output with destructor. Instrumented values carry thread<<32|ordinal; generator, counter "
         "closures, benchmarked closure and Drop impls append to the hook's event log, which also holds every clock "
         "read, barrier wait, tally clear and snapshot. Per-thread logs must equal the model's; the extracted sb_thread / "
         "sb_nodouble are evaluated on the implementation's logs. Non-trivial = at least one benchmarked call happened.")
@@ -34,6 +37,7 @@ ASSUMPTIONS = [
     "threads terminate is C08's subject",
 ]
 TRUSTED = [
+    "harness/hx-sample/src/e2e.rs (real-macro benchmark functions logging calls and drops)",
     "harness/hx-sample instrumented types and closures (identifiers, per-thread ordinals, in-call flag)",
     "ocaml/sample.ml parsing/printing of event tokens",
 ]
@@ -95,6 +99,7 @@ def streams(tier, rng):
                             rng.choice([1, 2, 3, 4, 7, 10]), rng.choice([1, 2, 3, 4, 5, 8]), int(rng.random() < 0.2)))
     pan = panic_cases(tier, rng)
     tuned = [S.rand_tuned(rng) for _ in range(1200 if tier == "quick" else 20000)]
+    e2e = S.e2e_cases(rng, tier)
     cseq = [S.counter_seq_case(rng, False) for _ in range(2500 if tier == "quick" else 40000)]
     cseq_t = [S.counter_seq_case(rng, True) for _ in range(800 if tier == "quick" else 12000)]
     return [
@@ -105,6 +110,7 @@ def streams(tier, rng):
         Stream("panic-injection", "panic", pan, nontrivial=nontrivial, hist=S.hist(pan)),
         # tuned sample size: rounds of sizes 1, 2, 4, ... (taken from the recorded history) with the same
         # counters in every round
+        Stream("corpus-e2e", "e2e", _corpus("e2e"), nontrivial=nontrivial),
         Stream("corpus-tuned", "tuned", _corpus("tuned"), nontrivial=nontrivial, model_input=lambda c, i: c + "\t" + i),
         Stream("tuned-sample-size", "tuned", tuned, nontrivial=nontrivial, model_input=lambda c, i: c + "\t" + i,
                hist=S.hist(tuned)),
@@ -115,6 +121,10 @@ def streams(tier, rng):
         Stream("counter-call-sequences", "run", cseq, nontrivial=nontrivial, hist=S.hist(cseq)),
         Stream("counter-call-sequences-tuned", "tuned", cseq_t, nontrivial=nontrivial,
                model_input=lambda c, i: c + "\t" + i, hist=S.hist(cseq_t)),
+        # the wrappers generated by #[divan::bench] (real-macro binary, one process per case): every returned
+        # value is dropped once, after the timed section of its sample
+        Stream("e2e-macro-wrappers", "e2e", e2e, nontrivial=nontrivial),
+        Stream("e2e-macro-wrappers-release", "e2e", e2e[::3], nontrivial=nontrivial, release=True),
         # optimised build: the ZST fast path, forget/zeroed and black_box are what an optimiser may touch
         Stream("run-full-product-release", "run", full if tier != "quick" else full[::3], nontrivial=nontrivial, release=True),
         Stream("panic-injection-release", "panic", pan if tier != "quick" else pan[::2], nontrivial=nontrivial, release=True),
@@ -127,7 +137,10 @@ def shrink(item, rerun):
 
     def fails(c):
         impl, model, sb = rerun(mode, c, crate=CRATE, release=rel, drv=DRV)
-        return (not sb.startswith("true")), impl, model, sb
+        # a candidate must fail the same way: same outcome word (a simplification that makes the harness itself
+        # panic, e.g. a call script taking a buffer the generator no longer keeps, is not a smaller witness)
+        same = impl.split(" ")[0] == str(item.get("impl") or "").split(" ")[0]
+        return (not sb.startswith("true")) and same, impl, model, sb
 
     def setf(c, k, v):
         return " ".join(f"{k}={v}" if t.startswith(k + "=") else t for t in c.split(" "))
